@@ -7,6 +7,7 @@
 pub mod checks;
 pub mod dev;
 pub mod gen;
+pub mod graphref;
 pub mod iso;
 pub mod plain;
 pub mod rng;
@@ -21,12 +22,18 @@ macro_rules! dispatch {
     ($id:expr, $f:ident, $($arg:expr),*) => {
         match $id {
             "C01" => Some($f::<checks::c01::C01>($($arg),*)),
+            "C03" => Some($f::<checks::c03::C03>($($arg),*)),
+            "C04" => Some($f::<checks::c04::C04>($($arg),*)),
+            "C15" => Some($f::<checks::c15::C15>($($arg),*)),
+            "C16" => Some($f::<checks::c16::C16>($($arg),*)),
+            "C17" => Some($f::<checks::c17::C17>($($arg),*)),
+            "C18" => Some($f::<checks::c18::C18>($($arg),*)),
             _ => None,
         }
     };
 }
 
-pub const ALL_IDS: &[&str] = &["C01"];
+pub const ALL_IDS: &[&str] = &["C01", "C03", "C04", "C15", "C16", "C17", "C18"];
 
 fn drive_id(id: &str, o: &Opts) -> Option<i32> {
     dispatch!(id, drive, o)
